@@ -24,7 +24,7 @@ func (d *PathDecoder) bodySchemaCandidates(ctx context.Context, body *hclsyntax.
 
 	if schema.Extensions != nil {
 		// check if count attribute "extension" is enabled here
-		if schema.Extensions.Count {
+		if schema.Extensions.Count && strings.HasPrefix("count", string(prefix)) {
 			// check if count attribute is already declared, so we don't
 			// suggest a duplicate
 			if _, ok := body.Attributes["count"]; !ok {
@@ -32,7 +32,7 @@ func (d *PathDecoder) bodySchemaCandidates(ctx context.Context, body *hclsyntax.
 			}
 		}
 
-		if schema.Extensions.ForEach {
+		if schema.Extensions.ForEach && strings.HasPrefix("for_each", string(prefix)) {
 			// check if for_each attribute is already declared, so we don't
 			// suggest a duplicate
 			if _, present := body.Attributes["for_each"]; !present {
